@@ -119,6 +119,11 @@ func mrowByName(n string) *mrow {
 			return &mrows[i]
 		}
 	}
+	for i := range mrowsWide {
+		if mrowsWide[i].Name == n {
+			return &mrowsWide[i]
+		}
+	}
 	return nil
 }
 
@@ -423,7 +428,14 @@ func TestC05_ArrivalOrdersEnumerated(t *testing.T) {
 func TestC05_ArrivalOrdersRandom(t *testing.T) {
 	currentT = t
 	rapid.Check(t, func(rt_ *rapid.T) {
-		row := &mrows[rapid.IntRange(0, len(mrows)-1).Draw(rt_, "row")]
+		all := len(mrows) + len(mrowsWide)
+		ri := rapid.IntRange(0, all-1).Draw(rt_, "row")
+		var row *mrow
+		if ri < len(mrows) {
+			row = &mrows[ri]
+		} else {
+			row = &mrowsWide[ri-len(mrows)]
+		}
 		k := rapid.SampledFrom(row.K).Draw(rt_, "k")
 		if k == 0 {
 			k = row.K[len(row.K)-1]
@@ -431,7 +443,11 @@ func TestC05_ArrivalOrdersRandom(t *testing.T) {
 		per := make([][][]rt.Ev, k)
 		scripts := make([][]rt.Ev, k)
 		for i := range per {
-			per[i] = sourceScripts(i, 3, row.Same)
+			maxVals := 3
+			if k >= 4 {
+				maxVals = 2
+			}
+			per[i] = sourceScripts(i, maxVals, row.Same)
 			scripts[i] = per[i][rapid.IntRange(0, len(per[i])-1).Draw(rt_, "script")]
 		}
 		pos := make([]int, k)
@@ -454,4 +470,63 @@ func TestC05_ArrivalOrdersRandom(t *testing.T) {
 		c05Run(t, c)
 		rt.Case(caseKey("arr", row.Name, k, arrivalsString(as)), c05NonTrivial(as, k), "random:"+row.Family, func() any { return c })
 	})
+}
+
+// mrowsWide: the higher-arity forms (every typed arity the library spells out by
+// hand is separate code). Used by the random arrival orders and the concurrent
+// membership check; the exhaustive enumeration stops at three sources.
+var mrowsWide = []mrow{
+	{Name: "MergeWith3-4", Family: "merge", K: []int{4, 5}, Model: model.Merge,
+		Build: func(s []ro.Observable[int]) ro.Observable[any] {
+			if len(s) == 4 {
+				return anyObs(ro.MergeWith3(s[1], s[2], s[3])(s[0]))
+			}
+			return anyObs(ro.MergeWith4(s[1], s[2], s[3], s[4])(s[0]))
+		}},
+	{Name: "CombineLatest4-5", Family: "combinelatest", K: []int{4, 5}, Model: model.CombineLatest,
+		Build: func(s []ro.Observable[int]) ro.Observable[any] {
+			if len(s) == 4 {
+				return anyObs(ro.CombineLatest4(s[0], s[1], s[2], s[3]))
+			}
+			return anyObs(ro.CombineLatest5(s[0], s[1], s[2], s[3], s[4]))
+		}},
+	{Name: "CombineLatestWith3-4", Family: "combinelatest", K: []int{4, 5}, Model: model.CombineLatest,
+		Build: func(s []ro.Observable[int]) ro.Observable[any] {
+			if len(s) == 4 {
+				return anyObs(ro.CombineLatestWith3[int, int, int, int](s[1], s[2], s[3])(s[0]))
+			}
+			return anyObs(ro.CombineLatestWith4[int, int, int, int, int](s[1], s[2], s[3], s[4])(s[0]))
+		}},
+	{Name: "Zip4-6", Family: "zip", K: []int{4, 5, 6}, Model: model.Zip,
+		Build: func(s []ro.Observable[int]) ro.Observable[any] {
+			switch len(s) {
+			case 4:
+				return anyObs(ro.Zip4(s[0], s[1], s[2], s[3]))
+			case 5:
+				return anyObs(ro.Zip5(s[0], s[1], s[2], s[3], s[4]))
+			}
+			return anyObs(ro.Zip6(s[0], s[1], s[2], s[3], s[4], s[5]))
+		}},
+	{Name: "ZipWith3-5", Family: "zip", K: []int{4, 5, 6}, Model: model.Zip,
+		Build: func(s []ro.Observable[int]) ro.Observable[any] {
+			switch len(s) {
+			case 4:
+				return anyObs(ro.ZipWith3[int, int, int, int](s[1], s[2], s[3])(s[0]))
+			case 5:
+				return anyObs(ro.ZipWith4[int, int, int, int, int](s[1], s[2], s[3], s[4])(s[0]))
+			}
+			return anyObs(ro.ZipWith5[int, int, int, int, int, int](s[1], s[2], s[3], s[4], s[5])(s[0]))
+		}},
+	{Name: "ZipAll3-4", Family: "zip", K: []int{3, 4}, Model: model.Zip,
+		Build: func(s []ro.Observable[int]) ro.Observable[any] { return anyObs(ro.ZipAll[int]()(ro.Just(s...))) }},
+	{Name: "CombineLatestAll4", Family: "combinelatest", K: []int{4}, Model: model.CombineLatest,
+		Build: func(s []ro.Observable[int]) ro.Observable[any] { return anyObs(ro.CombineLatestAll[int]()(ro.Just(s...))) }},
+	{Name: "CombineLatestAny", Family: "combinelatest", K: []int{2, 3}, Model: model.CombineLatest,
+		Build: func(s []ro.Observable[int]) ro.Observable[any] {
+			as := make([]ro.Observable[any], len(s))
+			for i := range s {
+				as[i] = anyObs(s[i])
+			}
+			return anyObs(ro.CombineLatestAny(as...))
+		}},
 }
